@@ -96,3 +96,37 @@ def parseHeader (da sa dsap ssap fc : String) : Option Header := do
   pure { da, sa, dsap, ssap, fc }
 
 end PV.Driver
+
+namespace PV.Driver
+
+/-- Generic line loop of a (possibly stateful) engine: `f state line = (state', output line)`. -/
+partial def engineLoop {σ : Type} (f : σ → String → σ × String) (s : σ)
+    (inp out : IO.FS.Stream) : IO Unit := do
+  let line ← inp.getLine
+  if line.isEmpty then return ()
+  let (s', o) := f s line
+  out.putStrLn o
+  engineLoop f s' inp out
+
+/-- Generic oracle loop: `f state op obs = (state', failure?)`; failures are `(class, reason)`. -/
+def oracleLoop {σ : Type} (f : σ → String → String → σ × Option (String × String)) (init : σ)
+    (opsFile implFile : String) : IO UInt32 := do
+  let ops ← IO.FS.lines opsFile
+  let obs ← IO.FS.lines implFile
+  let out ← IO.getStdout
+  let mut st := init
+  let mut failed := 0
+  let mut checked := 0
+  for i in [0:ops.size] do
+    let (st', r) := f st (ops.getD i "") (obs.getD i "")
+    st := st'
+    checked := checked + 1
+    match r with
+    | none => pure ()
+    | some (cls, why) =>
+      failed := failed + 1
+      if failed ≤ 200 then out.putStrLn s!"FAIL {i+1} {cls} {why}"
+  out.putStrLn s!"ORACLE checked={checked} failed={failed}"
+  return 0
+
+end PV.Driver
